@@ -1,11 +1,321 @@
 import Driver.Util
-/- line-protocol commands of the Tester family (stub: filled in by the family's build) -/
+import Driver.Session
+import AsyncFix.Model.TesterDict
+import AsyncFix.Model.TesterWire
+
+/-!
+Line-protocol commands of the Tester family (`tst.*`).
+
+Tokens
+* num      `f<eighths>` (a Python float) | `i<eighths>` (a Python int) | `nan`
+* ostr     `none` | `x<hex>`
+* order    `<clord> <orig:ostr> <orderId:ostr> <qty> <price> <cum> <leaves> <avgPx:num|nan> <status> <side>
+            <ticker> <ordType> <account:ostr>`                                   (13 tokens)
+* tstate   `<orderCtr> <execCtr> <n> <registered key>* <k> {<ClOrdID root> <OrderID>}*`   (`_order_ids`)
+* args     `<clord> <execType> <ordStatus> <cum> <leaves> <last> <price> <orderQty> <orig:ostr> <avgPrice>`
+* schema   `0` (no schema) | `1` (the dictionary check of Model/TesterDict.lean)
+* message  as in `sess.*` (`<mtype>,<tag>:<value>…`)
+
+Commands
+* `tst.fab <schema> <tstate> O <order> A <args>`
+    → `<tstate'> # ok <message> # <proc>` | `<tstate'> # refused <kind>`
+  where `<proc>` is the order object's `process_execution_report` on the fabricated report:
+  `ok <0|1> <order'>` | `raised <kind>`
+* `tst.cxlrej <schema> <request message> <ordStatus> O <order>`  → `ok <message> # <proc>` | `refused <kind>`
+* `tst.cxlreq <schema> <tstate> O <order> <nextClord> <time>`    → `<tstate'> # <order'> # ok <message>|refused <kind>`
+* `tst.repreq <schema> <tstate> O <order> <price> <qty> <nextClord> <time>`  → same
+* `tst.reg <tstate> <clord>`  → `<tstate'>`
+* `tst.msg logon <tag:value>*` | `logout` | `hb <ostr>` | `testreq <id>` | `seqreset <seq> <new> <0|1>` |
+  `resend <b> <e>`   → `<message> # <dictCheck 0|1>`
+* `tst.dict <message>` → `0|1`
+* wiring (`conn`, `sr`, message tokens as in `sess.*`; `|` separates the parts):
+  `tst.mkacc <conn>` / `tst.realacc <conn>`   → `<conn>` of the simulated / a real acceptor for that initiator
+  `tst.tstep <srI> <srA> <fuel> <now> <stamp> <connI> | <connA> | <n> <queued frame>* OP <op>`
+      → `<outcome> # <effects I> # <effects A> # <connI'> # <connA'> # <n> <queued frame>*`
+  `tst.lstep <srI> <srA> <now> <stamp> <connI> | <connA> OP <op>`
+      → `<quiet 0|1> # <effects I> # <effects A> # <connI'> # <connA'>`
+  op: `isend <msg>` | `itestreq` | `asend <msg>` | `atestreq`.  On the tester's acceptor `on_message` shows as `SNI`
+  (NotImplementedError swallowed).
+-/
 namespace Driver.Tester
+
+open AsyncFix.Tester AsyncFix.Session
 
 structure St where
   unit : Unit := ()
 
+def parseNum (t : String) : Option (Option Num) :=
+  if t == "nan" then some none
+  else match t.toList with
+    | 'f' :: r => (String.ofList r).toInt?.map fun e => some ⟨e, true⟩
+    | 'i' :: r => (String.ofList r).toInt?.map fun e => some ⟨e, false⟩
+    | _ => none
+
+def parseNum1 (t : String) : Option Num := (parseNum t).bind id
+
+def showNum (n : Num) : String := (if n.isFloat then "f" else "i") ++ toString n.e
+
+def parseOStr (t : String) : Option (Option String) :=
+  if t == "none" then some none else (Driver.tokStr t).map some
+
+def showOStr : Option String → String
+  | none => "none"
+  | some s => Driver.strTok s
+
+def parseOrder : List String → Option (OrderView × List String)
+  | cl :: og :: oid :: qty :: px :: cum :: lv :: avg :: st :: side :: tk :: ot :: acc :: rest => do
+    let cl ← Driver.tokStr cl
+    let og ← parseOStr og
+    let oid ← parseOStr oid
+    let qty ← parseNum1 qty
+    let px ← parseNum1 px
+    let cum ← parseNum1 cum
+    let lv ← parseNum1 lv
+    let avg ← parseNum avg
+    let st ← Driver.tokStr st
+    let side ← Driver.tokStr side
+    let tk ← Driver.tokStr tk
+    let ot ← Driver.tokStr ot
+    let acc ← parseOStr acc
+    pure ({ clordId := cl, origClordId := og, orderId := oid, qty := qty, price := px, cumQty := cum,
+            leavesQty := lv, avgPx := avg, status := st, side := side, ticker := tk, ordType := ot,
+            account := acc }, rest)
+  | _ => none
+
+def showOrder (o : OrderView) : String :=
+  String.intercalate " "
+    [Driver.strTok o.clordId, showOStr o.origClordId, showOStr o.orderId, showNum o.qty, showNum o.price,
+     showNum o.cumQty, showNum o.leavesQty, (match o.avgPx with | none => "nan" | some n => showNum n),
+     Driver.strTok o.status, Driver.strTok o.side, Driver.strTok o.ticker, Driver.strTok o.ordType,
+     showOStr o.account]
+
+def takeN {α} : Nat → List α → Option (List α × List α)
+  | 0, r => some ([], r)
+  | n + 1, x :: r => (takeN n r).map fun p => (x :: p.1, p.2)
+  | _ + 1, [] => none
+
+def parsePairs : Nat → List String → Option (List (List Nat × Nat) × List String)
+  | 0, r => some ([], r)
+  | n + 1, a :: b :: r => do
+    let root ← Driver.tokStr a
+    let k ← b.toNat?
+    let (ps, r) ← parsePairs n r
+    pure ((root.toList.map Char.toNat, k) :: ps, r)
+  | _ + 1, _ => none
+
+def parseTState : List String → Option (TState × List String)
+  | oc :: ec :: n :: rest => do
+    let oc ← oc.toNat?
+    let ec ← ec.toNat?
+    let n ← n.toNat?
+    let (ks, rest) ← takeN n rest
+    let ks ← ks.mapM Driver.tokStr
+    match rest with
+    | k :: rest => do
+      let k ← k.toNat?
+      let (ps, rest) ← parsePairs k rest
+      pure ({ orderCtr := oc, execCtr := ec, registered := ks, orderIds := ps }, rest)
+    | [] => none
+  | _ => none
+
+def showTState (st : TState) : String :=
+  String.intercalate " " ([toString st.orderCtr, toString st.execCtr, toString st.registered.length]
+    ++ st.registered.map Driver.strTok ++ [toString st.orderIds.length]
+    ++ st.orderIds.flatMap fun p => [Driver.strTok (String.ofList (p.1.map Char.ofNat)), toString p.2])
+
+def parseArgs : List String → Option (Args × List String)
+  | cl :: ex :: os :: cum :: lv :: last :: px :: oq :: og :: avg :: rest => do
+    let cl ← Driver.tokStr cl
+    let ex ← Driver.tokStr ex
+    let os ← Driver.tokStr os
+    let cum ← parseNum cum
+    let lv ← parseNum lv
+    let last ← parseNum last
+    let px ← parseNum px
+    let oq ← parseNum oq
+    let og ← parseOStr og
+    let avg ← parseNum1 avg
+    pure ({ clordId := cl, execType := ex, ordStatus := os, cumQty := cum, leavesQty := lv, lastQty := last,
+            price := px, orderQty := oq, origClordId := og, avgPrice := avg }, rest)
+  | _ => none
+
+def parseSchema (t : String) : Option (Option (RMsg → Bool)) :=
+  if t == "0" then some none else if t == "1" then some (some dictSchema) else none
+
+def showSite (s : Site) : String := (reprStr s).replace "AsyncFix.Tester.Site." ""
+
+def showRefusal : Refusal → String
+  | .assertion s => "assert:" ++ showSite s
+  | .schema => "schema"
+  | .tagNotFound => "TagNotFound"
+  | .fixError => "FIXError"
+
+def showPExc : PExc → String
+  | .fixError => "FIXError"
+  | .tagNotFound => "TagNotFound"
+  | .value => "Value"
+
+def showProc : Except PExc (OrderView × Bool) → String
+  | .ok (o, b) => "ok " ++ (if b then "1" else "0") ++ " " ++ showOrder o
+  | .error k => "raised " ++ showPExc k
+
+def showRMsg (m : RMsg) : String := Driver.Session.showMsg m.render
+
+def showReq (r : TState × OrderView × Except Refusal RMsg) : String :=
+  showTState r.1 ++ " # " ++ showOrder r.2.1 ++ " # " ++
+    (match r.2.2 with | .ok m => "ok " ++ showRMsg m | .error k => "refused " ++ showRefusal k)
+
+def parseTagVal (f : String) : Option (Nat × String) :=
+  match f.splitOn ":" with
+  | [a, b] => do pure (← a.toNat?, ← Driver.tokStr b)
+  | _ => none
+
+def showMsgCheck (m : Msg) : String :=
+  Driver.Session.showMsg m ++ " # " ++ (if dictCheck m then "1" else "0")
+
+def handleFab (cmd : String) (args : List String) : Option String :=
+  match cmd, args with
+  | "fab", sc :: rest => do
+    let sc ← parseSchema sc
+    let (st, rest) ← parseTState rest
+    match rest with
+    | "O" :: rest => do
+      let (o, rest) ← parseOrder rest
+      match rest with
+      | "A" :: rest => do
+        let (a, rest) ← parseArgs rest
+        if !rest.isEmpty then none
+        else
+          let (st', r) := fabricate sc st o a
+          match r with
+          | .ok m => pure (showTState st' ++ " # ok " ++ showRMsg m ++ " # " ++ showProc (processExecReport o m))
+          | .error k => pure (showTState st' ++ " # refused " ++ showRefusal k)
+      | _ => none
+    | _ => none
+  | "cxlrej", sc :: req :: os :: "O" :: rest => do
+    let sc ← parseSchema sc
+    let req ← Driver.Session.parseMsg req
+    let os ← Driver.tokStr os
+    let (o, rest) ← parseOrder rest
+    if !rest.isEmpty then none
+    else match cxlReject sc req os with
+      | .ok m => pure ("ok " ++ showRMsg m ++ " # " ++ showProc (processCxlRej o m))
+      | .error k => pure ("refused " ++ showRefusal k)
+  | "cxlreq", sc :: rest => do
+    let sc ← parseSchema sc
+    let (st, rest) ← parseTState rest
+    match rest with
+    | "O" :: rest => do
+      let (o, rest) ← parseOrder rest
+      match rest with
+      | [nc, tm] => do pure (showReq (cxlRequest sc st o (← Driver.tokStr nc) (← Driver.tokStr tm)))
+      | _ => none
+    | _ => none
+  | "repreq", sc :: rest => do
+    let sc ← parseSchema sc
+    let (st, rest) ← parseTState rest
+    match rest with
+    | "O" :: rest => do
+      let (o, rest) ← parseOrder rest
+      match rest with
+      | [px, q, nc, tm] => do
+        pure (showReq (repRequest sc st o (← parseNum px) (← parseNum q) (← Driver.tokStr nc) (← Driver.tokStr tm)))
+      | _ => none
+    | _ => none
+  | "reg", rest => do
+    let (st, rest) ← parseTState rest
+    match rest with
+    | [cl] => do
+      let cl ← Driver.tokStr cl
+      pure (showTState (register st { clordId := cl, qty := ⟨0, true⟩, price := ⟨0, true⟩ }))
+    | _ => none
+  | "msg", "logon" :: fs => do pure (showMsgCheck (msgLogon (← fs.mapM parseTagVal)))
+  | "msg", ["logout"] => pure (showMsgCheck msgLogout)
+  | "msg", ["hb", t] => do pure (showMsgCheck (msgHeartbeat (← parseOStr t)))
+  | "msg", ["testreq", t] => do pure (showMsgCheck (msgTestRequest (← Driver.tokStr t)))
+  | "msg", ["seqreset", a, b, g] => do
+    pure (showMsgCheck (msgSequenceReset (← Driver.tokStr a) (← Driver.tokStr b) (← Driver.Session.parseBool g)))
+  | "msg", ["resend", a, b] => do pure (showMsgCheck (msgResendRequest (← Driver.tokStr a) (← Driver.tokStr b)))
+  | "dict", [m] => do pure (if dictCheck (← Driver.Session.parseMsg m) then "1" else "0")
+  | _, _ => none
+
+/-! ### wiring -/
+
+def parseOp : List String → Option Op
+  | ["isend", m] => (Driver.Session.parseMsg m).map .iSend
+  | ["itestreq"] => some .iTestReq
+  | ["asend", m] => (Driver.Session.parseMsg m).map .aSend
+  | ["atestreq"] => some .aTestReq
+  | _ => none
+
+def showAccEffects (es : List Effect) : String :=
+  if es.isEmpty then "-" else String.intercalate ";" (es.map fun e =>
+    match accView e with
+    | .eff e => Driver.Session.showEffect e
+    | .swallowedNotImplemented _ => "SNI")
+
+def showOutcome (o : Outcome) : String := (reprStr o).replace "AsyncFix.Tester.Outcome." ""
+
+def showQue (q : List Msg) : String :=
+  String.intercalate " " (toString q.length :: q.map Driver.Session.showMsg)
+
+def handleWire (cmd : String) (args : List String) : Option String :=
+  match cmd, args with
+  | "mkacc", rest => do
+    let (c, rest) ← Driver.Session.parseConn rest
+    if rest.isEmpty then pure (Driver.Session.showConn (mkAcceptor c)) else none
+  | "realacc", rest => do
+    let (c, rest) ← Driver.Session.parseConn rest
+    if rest.isEmpty then pure (Driver.Session.showConn (realAcceptor c)) else none
+  | "tstep", srI :: srA :: fuel :: now :: stamp :: rest => do
+    let srI ← Driver.Session.parseSr srI
+    let srA ← Driver.Session.parseSr srA
+    let fuel ← fuel.toNat?
+    let env ← Driver.Session.parseEnv now stamp
+    let (ci, rest) ← Driver.Session.parseConn rest
+    match rest with
+    | "|" :: rest => do
+      let (ca, rest) ← Driver.Session.parseConn rest
+      match rest with
+      | "|" :: n :: rest => do
+        let n ← n.toNat?
+        let (q, rest) ← takeN n rest
+        let q ← q.mapM Driver.Session.parseMsg
+        match rest with
+        | "OP" :: opT => do
+          let op ← parseOp opT
+          let r := tStep srI srA env fuel ⟨ci, ca, q⟩ op
+          pure (String.intercalate " # "
+            [showOutcome r.out, Driver.Session.showEffects r.effI, showAccEffects r.effA,
+             Driver.Session.showConn r.pair.ci, Driver.Session.showConn r.pair.ca, showQue r.pair.que])
+        | _ => none
+      | _ => none
+    | _ => none
+  | "lstep", srI :: srA :: now :: stamp :: rest => do
+    let srI ← Driver.Session.parseSr srI
+    let srA ← Driver.Session.parseSr srA
+    let env ← Driver.Session.parseEnv now stamp
+    let (ci, rest) ← Driver.Session.parseConn rest
+    match rest with
+    | "|" :: rest => do
+      let (ca, rest) ← Driver.Session.parseConn rest
+      match rest with
+      | "OP" :: opT => do
+        let op ← parseOp opT
+        let r := lStep srI srA env ci ca op
+        pure (String.intercalate " # "
+          [if r.quiet then "1" else "0", Driver.Session.showEffects r.effI, Driver.Session.showEffects r.effA,
+           Driver.Session.showConn r.ci, Driver.Session.showConn r.ca])
+      | _ => none
+    | _ => none
+  | _, _ => none
+
 def handle (st : St) (cmd : String) (args : List String) : St × String :=
-  (st, "bad-op")
+  match handleFab cmd args with
+  | some r => (st, r)
+  | none =>
+    match handleWire cmd args with
+    | some r => (st, r)
+    | none => (st, "bad-op")
 
 end Driver.Tester
